@@ -147,7 +147,20 @@ def run_jobs(jobs, outdir, tag="jobs", threads=None, timeout=600, per_job_timeou
     binp = build_harness()
     os.makedirs(outdir, exist_ok=True)
     threads = threads or min(NCPU, 12)
-    status, res = _exec_harness(binp, jobs, outdir, tag, threads, timeout, stack_mb, job_timeout_ms=job_timeout_ms)
+    # interpreters are not reclaimed completely when dropped (closures and their frames refer to each other), so a
+    # process is given a bounded amount of work: chunks of jobs holding at most ~250k steps
+    status, res = "ok", {}
+    start = 0
+    while start < len(jobs):
+        end, steps = start, 0
+        while end < len(jobs) and (end == start or steps + len(jobs[end].get("steps", [])) <= 250000):
+            steps += len(jobs[end].get("steps", [])) or 1; end += 1
+        st, r = _exec_harness(binp, jobs[start:end], outdir, tag, threads, timeout, stack_mb, job_timeout_ms=job_timeout_ms)
+        for k, v in r.items():
+            v["idx"] = start + k; res[start + k] = v
+        if st != "ok":
+            status = st
+        start = end
     missing = [i for i in range(len(jobs)) if i not in res]
     if missing and status == "ok":
         raise ToolError("harness lost results without crashing")
